@@ -774,7 +774,7 @@ struct Gen {
                 if (pv.empty()) continue;
                 Integer p = pv[0];
                 if (!isprime(p)) continue;
-                size_t n = 1 + rng.below(i % 5 == 0 ? 30 : 8);
+                size_t n = 1 + rng.below(i % 3 == 0 ? 30 : 8);
                 if (Integer((uint64_t)n) > p) n = (size_t)(uint64_t)p;
                 std::set<std::string> seen;
                 IVec A;
@@ -790,6 +790,18 @@ struct Gen {
                 IVec R = residues(Pm, (int)rng.below(8));
                 const char* hs[] = {"D", "DC", "DqC", "DkC", "DKq", "DCqC", "DqKq"};
                 lines.push_back("pcrt." + d.name + " " + hs[rng.below(7)] + " " + hexZ(p) + " " + vp::hex_ull(n) + join(A) + join(R));
+                // residues that agree with a polynomial of low degree d on the first points and leave it only near the end: the Newton
+                // corrections are zero for many consecutive points in the middle (an interpolation loop that stops after a run of zero
+                // corrections returns the low-degree interpolant, wrong at the last points)
+                if (n >= 7) {
+                    const size_t dg = rng.below(3);
+                    IVec g(dg + 1, p); for (auto& c : g) c = randBelow(p);
+                    IVec R2(n, p);
+                    for (size_t j = 0; j < n; ++j) { Integer v(0); for (size_t t = dg + 1; t-- > 0;) { v *= A[j]; v += g[t]; v %= p; } R2[j] = v; }
+                    const size_t from = n - 1 - rng.below(n - dg - 6 > 0 ? std::min<size_t>(2, n - dg - 6) + 1 : 1);
+                    for (size_t j = from; j < n; ++j) { R2[j] += 1 + randBelow(p - 1); R2[j] %= p; }
+                    lines.push_back("pcrt." + d.name + " " + hs[rng.below(7)] + " " + hexZ(p) + " " + vp::hex_ull(n) + join(A) + join(R2));
+                }
                 // round trip from a polynomial: degree < n (identity expected), and a few of degree >= n (reduction)
                 size_t k = rng.below(6) == 0 ? n + rng.below(3) : rng.below(n + 1);
                 IVec Pk(k, p);
